@@ -328,6 +328,36 @@ def oracle_surface(ck, rng):
             expect(np.allclose(both, fresh + alone[0], atol=1e-4), "add-molecules", "a component added after a simulation is not part of the next one", info)
             p2 = used.simulate_2d(N[1:])
             expect(np.allclose(p2, both.sum(axis=0), atol=1e-3), "add-molecules", "simulate_2d after these changes is not the z-projection of simulate", info)
+            # a volume (or 2-D image) thinner than the template: the fragment sticks out on both sides of that axis and is clipped on both
+            big = np.zeros((9, 9, 9), np.float32); big[1:8, 3:6, 3:6] = rng.integers(1, 6, size=(7, 3, 3)); big[4, 1:8, 4] += 2; big[4, 4, 1:8] += 3
+            for ax_ in range(3):
+                thin = [30, 30, 30]; thin[ax_] = 5
+                pth = [15.0, 15.0, 15.0]; pth[ax_] = 2.0
+                full_shape = [30, 30, 30]; full_shape[ax_] = 25
+                pfull = list(pth); pfull[ax_] = 12.0
+                st = TomogramSimulator(order=order, scale=scale).add_molecules(Molecules(np.array([pth]) * scale), big)
+                sf = TomogramSimulator(order=order, scale=scale).add_molecules(Molecules(np.array([pfull]) * scale), big)
+                got = st.simulate(tuple(thin))
+                ref = sf.simulate(tuple(full_shape))
+                sl = [slice(None)] * 3; sl[ax_] = slice(10, 15)
+                expect(got.shape == tuple(thin) and np.allclose(got, ref[tuple(sl)], atol=1e-4), "thin-volume",
+                       f"a volume of 5 voxels along axis {ax_} with a 9-voxel template: not the clipped template", dict(info, axis=ax_))
+                if ax_ > 0:
+                    shape2 = tuple(thin[1:])
+                    expect(np.allclose(st.simulate_2d(shape2), st.simulate((30,) + shape2).sum(axis=0), atol=1e-3), "thin-volume",
+                           f"simulate_2d on an image of 5 pixels along axis {ax_} is not the z-projection", dict(info, axis=ax_))
+            # a template given as an image provider is evaluated at the scale of the simulator that simulates (also after replace(scale=...))
+            from acryo import pipe
+            prov = pipe.from_array(blob_src := np.pad(tmpl, 2).astype(np.float32), original_scale=1.0)
+            s_a = TomogramSimulator(order=1, scale=1.0).add_molecules(Molecules(np.array([[8.0, 8.0, 8.0]])), prov, name="p")
+            for sc2 in (0.5, 2.0):
+                rep = s_a.replace(scale=sc2)
+                direct = TomogramSimulator(order=1, scale=sc2).add_molecules(Molecules(np.array([[8.0, 8.0, 8.0]])), prov, name="p")
+                arr_d = TomogramSimulator(order=1, scale=sc2).add_molecules(Molecules(np.array([[8.0, 8.0, 8.0]])), np.asarray(prov(sc2)), name="p")
+                n2 = tuple(int(round(20 / sc2)) for _ in range(3))
+                a_, b_, c_ = rep.simulate(n2), direct.simulate(n2), arr_d.simulate(n2)
+                expect(np.allclose(a_, b_, atol=1e-4) and np.allclose(b_, c_, atol=1e-4), "provider-template",
+                       f"provider template: replace(scale={sc2}) / a simulator built at that scale / the provided array give different tomograms", dict(info, new_scale=sc2))
             # projections (the projection code always interpolates at order 3, so it is compared with an order-3 simulator)
             # the projection code cuts every rotated template to its own (y, x) box, so the density is kept inside the inscribed ball
             blob = np.zeros((11, 11, 11), np.float32)
